@@ -23,6 +23,12 @@
 (***************************************************************************)
 EXTENDS Names, TraceIO
 
+\* TRUE: the KNOWN finding names-trace:FilePath:from_path_and_file:panic-at-capacity (known_findings.json) is
+\* tolerated - a PANIC (never a wrong value) of FilePath::from_path_and_file for a valid result whose parts have
+\* together at least Cap - 1 bytes counts as a refusal - so that everything else in those runs is still judged.  The
+\* check validates the runs of that class a second time with FALSE and reports what it finds under that signature.
+CONSTANT TolerateFpafPanic
+
 VARIABLES l, ty, cur, nviol, nwhy
 tvars == <<l, ty, cur, nviol, nwhy>>
 
@@ -55,7 +61,10 @@ Consume ==
                     exp0 == Apply(ty, cur, op)
                     \* where the statement is silent both verdicts are fine (but an accepted name must round-trip)
                     free == e.a = "new" /\ Unspecified(ty, e.via, Input(ty, e.via, e.arg))
-                    exp == IF free
+                    known == /\ TolerateFpafPanic /\ e.a = "from_path_and_file" /\ e.r = "panic"
+                             /\ Len(e.arg) + Len(e.arg2) >= Cap(ty) - 1 /\ exp0.r = "ok"
+                    exp == IF known THEN [r |-> "err", s |-> cur, alt |-> {}]
+                           ELSE IF free
                            THEN (IF RClass(e.r) = "ok" THEN [r |-> "ok", s |-> Input(ty, e.via, e.arg), alt |-> {}]
                                                         ELSE [r |-> "err", s |-> cur, alt |-> {}])
                            ELSE exp0
